@@ -283,6 +283,36 @@ inductive XFlat (num : Nat → Bytes → Nat) (fs : Bytes → Option Bytes) (enc
       XFlat num fs enc E pid id path t nxt1 (Layout.Ref.cursorAfter c pc) els p nxt' →
       XFlat num fs enc E pid id path t nxt c (el :: els) (pc ++ (aliases (num id) (num nxt) A ++ p)) nxt'
 
+/-- every statement of a flattened program is the abstraction of a source statement of some file instance over that
+instance's table (which is `E` at the instance), or an alias `.const n [d] v` (an `.import`, or a publication) -/
+theorem XFlat.source {num : Nat → Bytes → Nat} {fs : Bytes → Option Bytes} {enc : Encoder} {E : Layout.Env} {pid id : Nat}
+    {path : Bytes} {t : Table} {nxt : Nat} {c : Option Nat} {els : List Element} {p : List Layout.Stmt} {nxt' : Nat}
+    (h : XFlat num fs enc E pid id path t nxt c els p nxt') (ht : EnvRel (num id) t E) :
+    ∀ s ∈ p, (∃ id' path' t' c' el, EnvRel (num id') t' E ∧ isInclude el = false ∧
+      s = absStmt (num id') fs enc path' t' c' el) ∨ (∃ n d v, s = .const n [d] v) := by
+  induction h with
+  | nil => intro s hs; cases hs
+  | stmt hi _ _ _ _ ih =>
+    intro s hs
+    rcases List.mem_cons.mp hs with rfl | hs
+    · exact .inl ⟨_, _, _, _, _, ht, hi, rfl⟩
+    · exact ih ht s hs
+  | pubs _ _ ih => exact ih ht
+  | imp _ _ _ ih =>
+    intro s hs
+    rcases List.mem_cons.mp hs with rfl | hs
+    · exact .inr ⟨_, _, _, rfl⟩
+    · exact ih ht s hs
+  | inc _ _ er _ _ _ _ ih1 ih2 =>
+    intro s hs
+    rcases List.mem_append.mp hs with hs | hs
+    · exact ih1 er s hs
+    · rcases List.mem_append.mp hs with hs | hs
+      · simp only [aliases, List.mem_map] at hs
+        obtain ⟨xv, _, rfl⟩ := hs
+        exact .inr ⟨_, _, _, rfl⟩
+      · exact ih2 ht s hs
+
 /-! ## the recursive call -/
 
 def XIncSim (num : Nat → Bytes → Nat) (enc : Encoder) (fs : Bytes → Option Bytes) (inc : Inc)
